@@ -566,12 +566,12 @@ func SV_C16_globals() {
 // SV_C16_free_sequence: any sequence of operations including snapshot, revert
 // and finalise on any address (thorough tier only does the work).
 //
-// sv:bounds as SV_C16_snapshot_revert, every operation on any of the 4 addresses, snapshot / revert-to-any / finalise as operations; length 1 (quick) or 3 (thorough)
+// sv:bounds as SV_C16_snapshot_revert, every operation on any of the 4 addresses, snapshot / revert-to-any / finalise as operations; length 1 (quick) or 2 (thorough)
 // sv:outside as SV_C16_snapshot_revert
 // sv:goal as SV_C16_snapshot_revert, compared on all addresses at the end and after a final Finalise
 func SV_C16_free_sequence() {
 	e := c16NewEnv(true)
-	n := 1 + 2*sv.Tier()
+	n := 1 + sv.Tier()
 	for i := 0; i < n; i++ {
 		e.step(fmt.Sprint("op", i+1), -1, 2)
 	}
